@@ -3,6 +3,7 @@ package engines
 
 import (
 	_ "verif/harness/cachesim"
+	_ "verif/harness/corrupt"
 	_ "verif/harness/logsim"
 	_ "verif/harness/mptsim"
 	_ "verif/harness/wmptsim"
